@@ -155,6 +155,7 @@ def _classify(res, block):
     if res['summary_seen'] is False: problems.append('no check summary')
     unwinding = [f for f in res['failed_checks'] if re.search(r'(?i)unwinding assertion|recursion unwinding', f)]
     if unwinding or re.search(r'unwinding failures', block): problems.append('unwinding assertion failed (bound too small): %s' % '; '.join(unwinding[:2]))
+    if cov['total'] == 0 and res['summary_seen']: problems.append('vacuity guard: the harness has no kani::cover! reachability witness')
     if cov['total'] != cov['satisfied']:
         problems.append('vacuity guard: %d of %d cover properties satisfied%s' % (cov['satisfied'], cov['total'], (' (not satisfied: %s)' % '; '.join(cov['unsatisfied'])) if cov['unsatisfied'] else ''))
     if verdict == 'SUCCESSFUL':
@@ -165,7 +166,7 @@ def _classify(res, block):
         return
     if verdict == 'FAILED':
         real = [f for f in res['failed_checks'] if not ARTEFACT_FAIL.search(f)]
-        hard = [p for p in problems if not p.startswith('vacuity guard')]            # a genuine failure usually also leaves covers undetermined
+        hard = [p for p in problems if not p.startswith('vacuity guard:')]           # a genuine failure usually also leaves covers undetermined
         if real and not hard and res['failed'] > 0:
             res['status'], res['detail'] = 'failure', 'Failed Checks: ' + ' | '.join(real[:4])
         else:
@@ -301,16 +302,24 @@ def run_harnesses(crate, inject, harnesses, extra_args=(), timeout_s=900, mem_gb
             if timed_out and r['status'] != 'success' and r['verdict_line'] is None:
                 r['status'] = 'inconclusive'; r['detail'] = 'timeout after %ds (run cut short)' % timeout_s
         # ---- failures: concrete playback (one by one, regular output)
+        done = {}                                   # failed-check text (without harness-specific location) -> harness already replayed
         for h, r in results.items():
             if r['status'] != 'failure': continue
-            r['replay'] = _playback(crate, inject, src, h, r, extra_args, timeout_s, mem_gb, logdir, tag) if playback else {'replayed': False, 'detail': 'playback disabled'}
+            sig = re.sub(r' @ .*$', '', (r['failed_checks'] or ['?'])[0])
+            if not playback: r['replay'] = {'replayed': False, 'detail': 'playback disabled'}
+            elif sig in done and results[done[sig]]['replay'].get('replayed'):
+                r['replay'] = {'replayed': False, 'same_as': done[sig], 'detail': 'not replayed separately: same failed check as %s, which reproduces natively' % done[sig]}
+            else:
+                r['replay'] = _playback(crate, inject, src, h, r, extra_args, timeout_s, mem_gb, logdir, tag)
+                done.setdefault(sig, h)
     return results
 
 def _playback(crate, inject, src, h, r, extra_args, timeout_s, mem_gb, logdir, tag):
     """re-run harness h alone with concrete playback, then execute the generated test natively. caller holds the lock."""
     rep = {'replayed': False, 'detail': '', 'test': None, 'native_output': ''}
     cmd = _base_cmd(crate, [h], extra_args) + ['-Z', 'concrete-playback', '--concrete-playback=print']
-    rc, out, dt = _run(cmd, src, timeout_s=timeout_s, mem_gb=mem_gb, log=os.path.join(logdir, '%s.%s.playback-gen.log' % (tag, h)))
+    # kani-driver itself needs a lot of address space to digest CBMC's JSON trace ('memory allocation of N bytes failed' at 10 GB): one harness, larger cap
+    rc, out, dt = _run(cmd, src, timeout_s=timeout_s + 600, mem_gb=max(3 * mem_gb, 30), log=os.path.join(logdir, '%s.%s.playback-gen.log' % (tag, h)))
     again = parse_output(out, [h])[h]
     rep['rerun_status'] = again['status']; rep['rerun_detail'] = again['detail']
     if again['cover']['items']: r['cover']['items'] = again['cover']['items']
@@ -337,7 +346,6 @@ def _playback(crate, inject, src, h, r, extra_args, timeout_s, mem_gb, logdir, t
     finally:
         open(p, 'w').write(text)
     rep['native_output'] = out2[-3000:]
-    ran = re.search(r'running (\d+) tests?', out2)
     failed = re.search(r'test \S*%s \.\.\. FAILED' % re.escape(name), out2)
     passed = re.search(r'test \S*%s \.\.\. ok' % re.escape(name), out2)
     pm = re.search(r"panicked at ([^\n]*)\n([^\n]*)", out2)
